@@ -18,7 +18,7 @@ namespace etl {
 template <etl::builtin_unsigned_integer UInt>
 [[nodiscard]] constexpr auto test_bit(UInt word, UInt pos) noexcept -> bool
 {
-    TETL_PRECONDITION(static_cast<int>(pos) < etl::numeric_limits<UInt>::digits);
+    TETL_PRECONDITION(pos < static_cast<UInt>(etl::numeric_limits<UInt>::digits));
     return static_cast<UInt>(word & static_cast<UInt>(UInt(1) << pos)) != UInt(0);
 }
 
